@@ -4,6 +4,8 @@ The attrpath walk (`_walk_attrpath_stack`) sees through a write to the leaf bind
 hence `set` on an attrpath leaf is idempotent. Used by C19.
 -/
 namespace Nima
+-- name tokens are compared by spelling in this file (see `NameCmp` in Model/Edit.lean)
+attribute [local instance] NameCmp.spelled
 open Node
 
 /-- componentwise write on the (parent set, binding) pairs of an attrpath walk -/
